@@ -6,10 +6,17 @@ ap = argparse.ArgumentParser()
 ap.add_argument("ids", nargs="*")
 ap.add_argument("--tier", default="quick")
 ap.add_argument("--props", default="")
+ap.add_argument("--worktree", default="", help="apply the changes in this scratch worktree of /repo (created and removed here) instead of /repo itself")
 a = ap.parse_args()
 V = "/verif"
 ids = a.ids or sorted(os.listdir(f"{V}/seeded"))
-assert subprocess.run("git -C /repo status --porcelain", shell=True, capture_output=True, text=True).stdout.strip() == "", "/repo not clean"
+REPO = "/repo"
+if a.worktree:
+    REPO = a.worktree
+    subprocess.run(f"git -C /repo worktree remove --force {REPO}", shell=True, capture_output=True)
+    r = subprocess.run(f"git -C /repo worktree add -q --detach {REPO} HEAD", shell=True, capture_output=True, text=True)
+    assert r.returncode == 0, r.stderr
+assert subprocess.run(f"git -C {REPO} status --porcelain", shell=True, capture_output=True, text=True).stdout.strip() == "", "repo not clean"
 results = {}
 import shutil, tempfile
 keep = tempfile.mkdtemp(prefix="evidence_keep_")          # evidence written under a seeded change is not evidence
@@ -18,13 +25,13 @@ for sid in ids:
     d = f"{V}/seeded/{sid}"
     meta = json.load(open(f"{d}/meta.json"))
     props = [meta["property"]] + [p for p in a.props.split(",") if p and p != meta["property"]]
-    r = subprocess.run(f"git -C /repo apply {d}/patch.diff", shell=True, capture_output=True, text=True)
+    r = subprocess.run(f"git -C {REPO} apply {d}/patch.diff", shell=True, capture_output=True, text=True)
     if r.returncode != 0:
         print(sid, "PATCH DOES NOT APPLY", r.stderr[:200]); continue
     try:
         for p in props:
             t0 = time.time()
-            c = subprocess.run([f"{V}/check", p, "--tier", a.tier], cwd=V, capture_output=True, text=True)
+            c = subprocess.run([f"{V}/check", p, "--tier", a.tier], cwd=V, capture_output=True, text=True, env=dict(os.environ, PUAN_REPO=REPO))
             viol = [l for l in c.stdout.splitlines() if l.startswith("VIOLATION")]
             last = (c.stdout.strip().splitlines() or [""])[-1]
             print(f"{sid} check={p} exit={c.returncode} violations={len(viol)} {time.time()-t0:.0f}s :: {last[:160]}", flush=True)
@@ -32,7 +39,9 @@ for sid in ids:
                 print("   MACHINERY:", c.stdout[-600:].replace("\n", " | "))
             results[f"{sid}:{p}"] = c.returncode
     finally:
-        subprocess.run("git -C /repo checkout -- . && git -C /repo clean -fdq", shell=True)
+        subprocess.run(f"git -C {REPO} checkout -- . && git -C {REPO} clean -fdq", shell=True)
+if a.worktree:
+    subprocess.run(f"git -C /repo worktree remove --force {REPO}", shell=True, capture_output=True)
 for f in os.listdir(keep): shutil.copy(f"{keep}/{f}", f"{V}/evidence/{f}")
 shutil.rmtree(keep)
 json.dump(results, open(f"{V}/.seeded_last.json", "w"), indent=1)
